@@ -767,6 +767,16 @@ func (lb *LoadBalancer) proxyRequest(backend *Backend, w http.ResponseWriter, r 
 		}
 	}()
 
+	// The documented end-to-end handler timeout bounds the whole exchange, so a
+	// backend that stalls in the middle of its response body cannot keep the
+	// request (and its connection slot) open for as long as it likes.
+	// Upgraded connections (WebSocket tunnels) live on beyond it.
+	if d := lb.handlerTimeout(); d > 0 && r.Header.Get("Upgrade") == "" {
+		ctx, cancel := context.WithTimeout(r.Context(), d)
+		defer cancel()
+		r = r.WithContext(ctx)
+	}
+
 	// Forward the request to the selected backend
 	backend.ReverseProxy.ServeHTTP(rw, r)
 	completed = true
@@ -779,6 +789,18 @@ func (lb *LoadBalancer) proxyRequest(backend *Backend, w http.ResponseWriter, r 
 		return errBackendFailure
 	}
 	return nil
+}
+
+// handlerTimeout is server.timeouts.handler (default 30s, as documented)
+func (lb *LoadBalancer) handlerTimeout() time.Duration {
+	t := 0
+	if lb.config != nil {
+		t = lb.config.Server.Timeouts.Handler
+	}
+	if t == 0 {
+		t = 30
+	}
+	return time.Duration(t) * time.Second
 }
 
 // recordRequestMetrics records metrics and performs passive health checks
